@@ -363,7 +363,14 @@ def apalache(ctx, tla_text, modname, *, inv="Ok", timeout=900, name=None):
 
 
 # -------------------------------------------------------------------- harness runs
-def _run_driver_one(ctx, drv, sub, cases, timeout, extra, per_call_ms, env):
+def _limit_as(nbytes):
+    def f():
+        import resource
+        resource.setrlimit(resource.RLIMIT_AS, (nbytes, nbytes))
+    return f
+
+
+def _run_driver_one(ctx, drv, sub, cases, timeout, extra, per_call_ms, env, mem=None):
     fin = tempfile.NamedTemporaryFile("w", suffix=".cases", dir=ctx.scratch, delete=False)
     for c in cases:
         fin.write(json.dumps(c, separators=(",", ":")) + "\n")
@@ -378,11 +385,30 @@ def _run_driver_one(ctx, drv, sub, cases, timeout, extra, per_call_ms, env):
         if env:
             e.update(env)
         try:
-            p = subprocess.run(cmd, capture_output=True, text=True, timeout=timeout, env=e)
+            p = subprocess.run(cmd, capture_output=True, text=True, timeout=timeout, env=e,
+                               preexec_fn=_limit_as(mem) if mem else None)
         except subprocess.TimeoutExpired:
             raise Infra("driver %s timed out after %ds" % (sub, timeout))
         if p.returncode == 0:
             break
+        if mem and p.returncode not in (3, 64) and restarts < 5000:
+            # the process died while executing a case (out of memory, fatal error): that IS an observation
+            restarts += 1
+            skip = sum(1 for _ in open(fout))
+            if skip < len(cases):
+                stop = False
+                with open(fout, "a") as fh:
+                    fh.write(json.dumps(dict(case=cases[skip], ev="crash", msg=(p.stderr or "")[:300]),
+                                        separators=(",", ":")) + "\n")
+                    if restarts >= 25:
+                        # enough evidence from this chunk: the remaining cases are recorded as not run
+                        for c in cases[skip + 1:]:
+                            fh.write(json.dumps(dict(case=c, ev="notrun"), separators=(",", ":")) + "\n")
+                        stop = True
+                if stop:
+                    break
+                skip += 1
+                continue
         if p.returncode == 3 and restarts < 200:
             restarts += 1
             skip = sum(1 for _ in open(fout))
@@ -395,7 +421,8 @@ def _run_driver_one(ctx, drv, sub, cases, timeout, extra, per_call_ms, env):
     return fout, restarts, p.stderr
 
 
-def run_driver(ctx, sub, cases, *, race=False, timeout=1800, extra=None, per_call_ms=1500, env=None, jobs=None):
+def run_driver(ctx, sub, cases, *, race=False, timeout=1800, extra=None, per_call_ms=1500, env=None, jobs=None,
+               mem=None):
     """Execute `cases` (list of JSON objects) with driver subcommand `sub`; returns observations in order.
     A call that does not return within per_call_ms is recorded by the driver as {"ev":"hang"} and
     the driver exits 3; we restart it after that case (a hang is an observation, not an infra error).
@@ -405,7 +432,7 @@ def run_driver(ctx, sub, cases, *, race=False, timeout=1800, extra=None, per_cal
     if jobs is None:
         jobs = 1 if len(cases) < 4000 else NCPU
     if jobs <= 1:
-        f, restarts, _ = _run_driver_one(ctx, drv, sub, cases, timeout, extra, per_call_ms, env)
+        f, restarts, _ = _run_driver_one(ctx, drv, sub, cases, timeout, extra, per_call_ms, env, mem)
         files = [f]
     else:
         from concurrent.futures import ThreadPoolExecutor
@@ -413,7 +440,7 @@ def run_driver(ctx, sub, cases, *, race=False, timeout=1800, extra=None, per_cal
         chunks = [cases[i:i + size] for i in range(0, len(cases), size)]
         files, restarts = [], 0
         with ThreadPoolExecutor(max_workers=jobs) as ex:
-            for f, r, _ in ex.map(lambda ch: _run_driver_one(ctx, drv, sub, ch, timeout, extra, per_call_ms, env), chunks):
+            for f, r, _ in ex.map(lambda ch: _run_driver_one(ctx, drv, sub, ch, timeout, extra, per_call_ms, env, mem), chunks):
                 files.append(f)
                 restarts += r
     obs = Obs(files)
